@@ -90,7 +90,7 @@ class RetryDomain(Domain):
                 return {ast.Lt: val < 0, ast.LtE: val <= 0, ast.Gt: val > 0, ast.GtE: val >= 0, ast.Eq: val == 0, ast.NotEq: val != 0}[type(op)]
             if type(op) not in (ast.Lt, ast.LtE, ast.Gt, ast.GtE, ast.Eq, ast.NotEq):
                 return TOP
-            last = state.get("is_last", self.cfg.get("last"))
+            last = state.get("#is_last", self.cfg.get("last"))
             if last is None:
                 return TOP
             if last:
@@ -111,9 +111,9 @@ class RetryDomain(Domain):
             return [("ok", Opaque("range"), state)]
         if name == "func":
             self.func_calls.append(node)
-            if state.get("calls", 0) >= 1 and state.get("sleeps", 0) != 1:
-                self.bad.append(("sleep-between-attempts", "between two consecutive attempts sleep() runs %d times instead of exactly once" % state.get("sleeps", 0), node))
-            st = state.set("calls", min(2, state.get("calls", 0) + 1)).set("sleeps", 0)
+            if state.get("#calls", 0) >= 1 and state.get("#sleeps", 0) != 1:
+                self.bad.append(("sleep-between-attempts", "between two consecutive attempts sleep() runs %d times instead of exactly once" % state.get("#sleeps", 0), node))
+            st = state.set("#calls", min(2, state.get("#calls", 0) + 1)).set("#sleeps", 0)
             if self.func_outcome == "ok":
                 return [("ok", Opaque("result"), st)]
             if self.func_outcome == "async":
@@ -127,7 +127,7 @@ class RetryDomain(Domain):
             return [("ok", TOP, state)]
         if name in ("sleep", "time.sleep"):
             self.sleep_args.append(args[0] if args else None)
-            return [("ok", NONE, state.set("sleeps", min(3, state.get("sleeps", 0) + 1)))]
+            return [("ok", NONE, state.set("#sleeps", min(3, state.get("#sleeps", 0) + 1)))]
         # helper methods of the class are inlined one level (e.g. a _should_retry helper)
         if name.startswith("self.") and name.count(".") == 1 and self.prog is not None:
             m = self.prog.method("RetryingClient", name[5:], required=False)
@@ -144,7 +144,7 @@ class RetryDomain(Domain):
                     self._depth -= 1
                 res = []
                 for s, v, t in outs.of("ret"):
-                    res.append(("ok", v, state.update({k: val for k, val in s.d.items() if k in ("sleeps", "calls")})))
+                    res.append(("ok", v, state.update({k: val for k, val in s.d.items() if k in ("#sleeps", "#calls")})))
                 for s, v, t in outs.of("exc"):
                     res.append(("exc", v, state))
                 return res
@@ -154,15 +154,15 @@ class RetryDomain(Domain):
         if itval == Opaque("range"):
             if "last" in self.cfg:
                 return [(Lin(1, 0, 0), state)]
-            if state.get("is_last", None):
+            if state.get("#is_last", None):
                 return []  # the last index has been used: the range is exhausted
-            return [(Lin(1, 0, 0), state.set("is_last", False)), (Lin(1, 0, 0), state.set("is_last", True))]
+            return [(Lin(1, 0, 0), state.set("#is_last", False)), (Lin(1, 0, 0), state.set("#is_last", True))]
         return super().for_next(node, itval, state)
 
     def for_exhausted(self, node, itval, state):
         if itval == Opaque("range") and "last" not in self.cfg:
             # attempts >= 1 (R5): the loop ends only after the iteration with the last index
-            return state if state.get("is_last", None) else None
+            return state if state.get("#is_last", None) else None
         return state
 
 
@@ -250,7 +250,7 @@ def run(chk):
     for vals in itertools.product((False, True), repeat=5):
         cfg = dict(zip(("rf", "mrf", "dnr", "mdnr", "known"), vals))
         dom = RetryDomain(prog, rt, cfg, "raise")
-        outs = Interp(dom, rt.node, prog).run(Env({"sleeps": 0, "calls": 0}))
+        outs = Interp(dom, rt.node, prog).run(Env({"#sleeps": 0, "#calls": 0}))
         rows += 2
         for construct, msg, node in dom.bad:
             if construct == "sleep-between-attempts":
@@ -262,24 +262,24 @@ def run(chk):
                 sleep_bad.append((cfg, "the sleep argument is not self._retry_delay"))
         immediate = spec_raises(dict(cfg, last=False))  # must raise on whatever attempt fails first
         for s_, v, t in outs.of("ret"):
-            mism.append((dict(cfg, last=bool(s_.get("is_last", None))), "returns %s although every attempt failed" % (v,), "raise"))
+            mism.append((dict(cfg, last=bool(s_.get("#is_last", None))), "returns %s although every attempt failed" % (v,), "raise"))
         exits = outs.of("exc")
         if not exits and not outs.of("ret"):
             mism.append((cfg, "never terminates", "raise"))
         for s_, exc, t in exits:
-            last = bool(s_.get("is_last", None))
+            last = bool(s_.get("#is_last", None))
             row = dict(cfg, last=last)
             if not (exc.colour == ORD and exc.origin == inloop[0].lineno):
                 mism.append((row, "raises a different exception (%s)" % (exc,), "re-raise of the caught one"))
             if immediate:
-                if s_.get("calls") != 1:
+                if s_.get("#calls") != 1:
                     mism.append((dict(cfg, last=False), "retries", "raise"))
             else:
                 if not last:
                     mism.append((row, "raises", "retry"))
-            if s_.get("sleeps"):
-                sleep_bad.append((row, "sleeps %d time(s) after the final attempt, before raising" % s_.get("sleeps")))
-        if not immediate and not any(bool(s_.get("is_last", None)) and s_.get("calls") == 2 for s_, e, t in exits):
+            if s_.get("#sleeps"):
+                sleep_bad.append((row, "sleeps %d time(s) after the final attempt, before raising" % s_.get("#sleeps")))
+        if not immediate and not any(bool(s_.get("#is_last", None)) and s_.get("#calls") == 2 for s_, e, t in exits):
             mism.append((dict(cfg, last=False), "raises", "retry"))
     if mism:
         cfg, got, want = mism[0]
@@ -298,20 +298,20 @@ def run(chk):
     # success row and fall-through
     dom = RetryDomain(prog, rt, dict(last=True, rf=False, mrf=False, dnr=False, mdnr=False, known=True), "ok")
     interp = Interp(dom, rt.node, prog)
-    st = Env({"sleeps": 0, "calls": 0})
+    st = Env({"#sleeps": 0, "#calls": 0})
     tgt_states, _ = interp.assign(loop.target, Lin(1, 0, 0), st, Ctx(rt.node))
     outs = interp.block(loop.body, [(s, ()) for s in tgt_states], Ctx(rt.node))
     r4 = chk.rule("C17.R4", "transparency: the first successful result is returned unchanged, the caught exception is the one re-raised, BaseException is never retried")
     rets = outs.of("ret")
-    okr = len(rets) >= 1 and all(v == Opaque("result") and s.get("sleeps") == 0 and s.get("calls") == 1 for s, v, t in rets) and not outs.of("norm") and not outs.of("cont")
-    r4.expect(okr, "success: returns func's value itself, at once", "RetryingClient._retry:success-path", "a successful call does not immediately return the delegate's own result (%s)" % [(v, s.get("sleeps")) for s, v, t in rets], fn=rt, node=loop)
+    okr = len(rets) >= 1 and all(v == Opaque("result") and s.get("#sleeps") == 0 and s.get("#calls") == 1 for s, v, t in rets) and not outs.of("norm") and not outs.of("cont")
+    r4.expect(okr, "success: returns func's value itself, at once", "RetryingClient._retry:success-path", "a successful call does not immediately return the delegate's own result (%s)" % [(v, s.get("#sleeps")) for s, v, t in rets], fn=rt, node=loop)
     for outcome in ("async",):
         dom = RetryDomain(prog, rt, dict(last=False, rf=False, mrf=False, dnr=False, mdnr=False, known=True), outcome)
         interp = Interp(dom, rt.node, prog)
-        tgt_states, _ = interp.assign(loop.target, Lin(1, 0, 0), Env({"sleeps": 0, "calls": 0}), Ctx(rt.node))
+        tgt_states, _ = interp.assign(loop.target, Lin(1, 0, 0), Env({"#sleeps": 0, "#calls": 0}), Ctx(rt.node))
         outs = interp.block(loop.body, [(s, ()) for s in tgt_states], Ctx(rt.node))
         ex = outs.of("exc")
-        oka = len(ex) >= 1 and all(e.colour == ASYNC and s.get("sleeps") == 0 for s, e, t in ex) and not outs.of("norm") and not outs.of("cont") and not outs.of("ret")
+        oka = len(ex) >= 1 and all(e.colour == ASYNC and s.get("#sleeps") == 0 for s, e, t in ex) and not outs.of("norm") and not outs.of("cont") and not outs.of("ret")
         r4.expect(oka, "a BaseException from the delegate propagates at once (never retried, no sleep)", "RetryingClient._retry:BaseException-retried", "a BaseException raised by the wrapped call is intercepted by the retry handler", fn=rt, node=loop)
 
     # ------------------------------------------------------------------ R5 constructor guards
@@ -333,10 +333,10 @@ class InitDomain(ExactCollections, Domain):
     max_inline_depth = 3
 
     def mark_imprecise(self, state, node):
-        return state.set("imprecise", 1)
+        return state.set("#imprecise", 1)
 
     def is_global_key(self, k):
-        return k == "imprecise" or super().is_global_key(k)
+        return k == "#imprecise" or super().is_global_key(k)
 
     def name_load(self, name, state, node=None):
         if state.has(name):
